@@ -875,6 +875,53 @@ fn decode_stream(r: &Rng, out: &mut Out, n: usize, with_leaf: bool) {
             }
         }
     }
+    // every single-octet substitution in a few representative images (all 256 values in the thorough tier; the
+    // corners, the neighbours and each flipped bit otherwise): no single-octet fault depends on the random stream
+    {
+        let full = n > 100000;
+        let mk = |k: &str, a: Vec<&str>| encode_avp(&TAvp::new(k, a.into_iter().map(|x| x.to_string()).collect())).unwrap();
+        let imgs: Vec<Vec<u8>> = vec![
+            assemble(0x1320, 1, 2, 3, 4, &[mk("MessageType", vec!["StartControlConnectionRequest"]), mk("ProtocolVersion", vec!["1", "0"]), mk("HostName", vec!["6c6163"]),
+                mk("ResultCode", vec!["1", "Generic", "6f6b"]), mk("Hidden", vec!["7", "000102030405060708090a0b0c0d0e0f"]), mk("Q931CauseCode", vec!["16", "1", "4e43"])]),
+            assemble(0x1320, 0xffff, 0, 0, 0xffff, &[mk("MessageType", vec!["CallDisconnectNotify"]), mk("ProxyAuthenType", vec!["PppChap"]), mk("Accm", vec!["01020304", "05060708"]),
+                mk("SequencingRequired", vec![]), mk("VendorName", vec!["e282ac"])]),
+            assemble(0x1320, 1, 2, 3, 4, &[]),
+            vec![0x52, 0x20, 0x00, 0x12, 0, 7, 0, 9, 0, 1, 0, 2, 0, 2, 0xee, 0xee, 0xaa, 0xbb],
+            vec![0x80, 0x20, 0, 7, 0, 9, 0xaa],
+        ];
+        for (k, img) in imgs.iter().enumerate() {
+            for pos in 0..img.len() {
+                let orig = img[pos];
+                let mut vals: Vec<u8> = if full { (0..=255u8).collect() } else {
+                    let mut v = vec![0u8, 1, 0x7f, 0x80, 0xff, orig.wrapping_add(1), orig.wrapping_sub(1)];
+                    v.extend((0..8).map(|b| orig ^ (1 << b)));
+                    v
+                };
+                vals.sort();
+                vals.dedup();
+                for x in vals {
+                    if x == orig {
+                        continue;
+                    }
+                    let mut m = img.clone();
+                    m[pos] = x;
+                    out.push(format!("dec {} {}", if (k + pos) % 2 == 0 { "111" } else { "000" }, hex(&m)));
+                }
+            }
+            // and every truncation
+            for cut in 0..img.len() {
+                out.push(format!("dec 010 {}", hex(&img[..cut])));
+            }
+        }
+    }
+    // the AVP header: every value of its first two octets (flags, length high bits, length low octet) over a fixed tail
+    for w in 0..=65535u32 {
+        if n > 100000 || w % 5 == 0 || w < 1200 || (w & 0xff) < 12 {
+            let mut rec = vec![(w >> 8) as u8, w as u8, 0, 0, 0, 7];
+            rec.extend_from_slice(&[0x61, 0x62, 0x63, 0x64, 0x65, 0x66, 0x67, 0x68, 0x69, 0x6a]);
+            out.push(format!("avps {}", hex(&rec)));
+        }
+    }
     // the enumerated fields: every code 0..=40 and the 16-bit corners, at each place a code is carried
     for code in (0..=40u16).chain([0x00ff, 0x0100, 0x0101, 0x0111, 0x1100, 0x7fff, 0x8000, 0x8001, 0xff05, 0xfffe, 0xffff]) {
         let c = code.to_be_bytes();
